@@ -11,3 +11,5 @@ import ThriftVerif.Props.C18
 #print axioms Props.C18.validate_set_write
 #print axioms Props.C18.validate_set_rejects_distinct
 #print axioms Props.C18.write_eq_std
+#print axioms Props.C18.deep_equal_no_false_negative
+#print axioms Props.C18.deep_equal_refl
